@@ -375,11 +375,13 @@ where
     evaluator's table is created or reset, parameters are disabled, the disabled
     and shadowed builtin names of the compiler's table and of the optimizer's own
     scope chain are copied.  `ev = none` is `ev.symtab == nil`. -/
+def evalStartTab (ev : Option Tab) : Tab :=
+  match ev with
+  | none => newTab            -- ev.symtab = NewSymbolTable()
+  | some t => resetTab t      -- ev.symtab.reset()
+
 def evalResetTab (ev : Option Tab) (compSymTab : Chain) (scopes : List (List Name)) : Res Tab := do
-  let t0 := match ev with
-    | none => newTab
-    | some t => resetTab t
-  let c1 ← enableParams [t0] false
+  let c1 ← enableParams [evalStartTab ev] false
   let c2 ← optimCopyBuiltinStates c1 compSymTab
   let c3 ← optimCopyBuiltinStatesFromScope c2 scopes
   root c3
